@@ -1,4 +1,50 @@
-import ZbossModel.Host
+import ZbossModel.Proofs.Host
+/-! # C14 - blocking requests are mutually exclusive and served first-come first-served -/
 namespace Zboss.Host
-theorem C14_placeholder : True := trivial
+
+/-- **exclusive, every history**: at most one blocking request is past the blocking lock - from before its
+    first frame goes out until it ends (response, timeout, cancellation), no other blocking request can
+    transmit -/
+theorem C14_exclusive (evs : List Ev) (r1 r2 : Req) (h1 : r1 ∈ (runEvents {} evs).1.reqs)
+    (h2 : r2 ∈ (runEvents {} evs).1.reqs) (b1 : r1.blocking = true) (b2 : r2.blocking = true)
+    (p1 : afterB r1.phase = true) (p2 : afterB r2.phase = true) : r1 = r2 := by
+  have hinv := inv2_reachable evs
+  have a1 := (hinv.2 r1 h1).1 .B ((hinv.2 r1 h1).2.2.2 b1 p1)
+  have a2 := (hinv.2 r2 h2).1 .B ((hinv.2 r2 h2).2.2.2 b2 p2)
+  rw [a1] at a2
+  exact unique_of_id _ hinv.1 r1 r2 h1 h2 (by simpa using a2)
+
+/-- every phase in which a request writes frames or awaits its response is past the blocking lock -/
+theorem C14_transmit_is_afterB (p : Phase) (h : inTransmit p = true ∨ p = .waitRsp) : afterB p = true := by
+  rcases h with h | h
+  · cases p <;> simp [inTransmit, afterB] at h ⊢
+  · subst h; rfl
+
+/-- **first come, first served**: taking a lock appends to the tail of its queue (once), success means being
+    the head; releasing pops the head and wakes the new head -/
+theorem C14_fifo (st : St) (l : Lock) (i : Nat) :
+    queue (acquire st l i).1 l = (if (queue st l).contains i then queue st l else queue st l ++ [i]) ∧
+    ((acquire st l i).2 = true ↔ (queue (acquire st l i).1 l).head? = some i) ∧
+    queue (release st l i) l = (queue st l).drop 1 := by
+  refine ⟨?_, ?_, ?_⟩
+  · unfold acquire; simp only []
+    generalize (if (queue st l).contains i = true then queue st l else queue st l ++ [i]) = q'
+    by_cases hc : q'.head? = some i <;> simp [hc]
+  · unfold acquire; simp only []
+    generalize (if (queue st l).contains i = true then queue st l else queue st l ++ [i]) = q'
+    by_cases hc : q'.head? = some i <;> simp [hc]
+  · unfold release; simp only []
+    split <;> (cases l <;> simp [queue, setQueue, updReq])
+
+/-- **requests not marked blocking never wait for a blocking request**: they pass the blocking lock without
+    touching it and compete for the message / transmit locks only -/
+theorem C14_nonblocking_free (st : St) (i : Nat) (r : Req) (fuel : Nat) (hg : getReq st i = some r)
+    (hp : r.phase = .waitB) (hnb : r.blocking = false) :
+    runReq (fuel + 1) st i = runReq fuel (updReq st i fun r => { r with phase := .waitM }) i := by
+  rw [runReq]; simp only [hg, hp, hnb, Bool.false_eq_true, if_false]
+
+/-! ## non-vacuity: blocking 1 awaits its response, blocking 2 stays queued, non-blocking 3 is written at once -/
+example : ((runEvents {} [.start 1 1 true 1 3013, .rxAck 0, .start 2 2 true 1 5026, .start 3 3 false 1 7039]).2.map
+    fun l => l.filter isWD) = [[.write 1 0 0 1], [], [], [.write 3 0 1 1]] := by decide +kernel
+
 end Zboss.Host
